@@ -499,14 +499,33 @@ def array_shape_table(ctx, res):
     repo = get_pyrepo(ctx)
     mod = repo.module(TN)
     fn = repo.func(TN, "AbstractArray.validate")
-    # the per-dimension loop: `for i, dim in enumerate(value_shape)` with an
-    # else clause returning the value
-    loops = [s for s in ast.walk(fn) if isinstance(s, ast.For) and s.orelse
-             and any(isinstance(r, ast.Return) for r in s.orelse)
-             and "enumerate" in norm(s.iter)]
-    if len(loops) != 1 or not isinstance(loops[0].target, ast.Tuple):
-        raise AnalysisError("AbstractArray.validate: per-dimension loop")
-    loop = loops[0]
+    # the per-dimension loop `for i, dim in enumerate(<value shape>)` whose
+    # body reads `item = <declared shape>[i]`: in validate itself or in a
+    # module-level helper it calls
+    def dim_loops(f):
+        out = []
+        for s_ in ast.walk(f):
+            if isinstance(s_, ast.For) and isinstance(s_.target, ast.Tuple) \
+                    and len(s_.target.elts) == 2 \
+                    and "enumerate" in norm(s_.iter):
+                i_ = norm(s_.target.elts[0])
+                if any(isinstance(a, ast.Assign)
+                       and isinstance(a.value, ast.Subscript)
+                       and norm(a.value.slice) == i_
+                       and isinstance(a.targets[0], ast.Name)
+                       for a in s_.body):
+                    out.append(s_)
+        return out
+    cands = [(fn, l) for l in dim_loops(fn)]
+    for c in ast.walk(fn):
+        if isinstance(c, ast.Call) and isinstance(c.func, ast.Name) \
+                and c.func.id in mod.functions:
+            h = mod.functions[c.func.id]
+            cands += [(h, l) for l in dim_loops(h)]
+    if len(cands) != 1:
+        raise AnalysisError(f"AbstractArray.validate: per-dimension loop "
+                            f"({len(cands)} candidates)")
+    host, loop = cands[0]
     idx, dimv = [norm(t) for t in loop.target.elts]
     itemv = None
     for a in loop.body:
@@ -516,6 +535,20 @@ def array_shape_table(ctx, res):
             itemv = a.targets[0].id
     if itemv is None:
         raise AnalysisError("AbstractArray.validate: shape entry local")
+    # leaving the loop early rejects (break with a for-else accept, or a
+    # falsy return from a predicate helper)
+    if host is fn:
+        if not (loop.orelse and any(isinstance(r, ast.Return)
+                                    for r in loop.orelse)):
+            raise AnalysisError("AbstractArray.validate: the loop's else "
+                                "clause does not return the value")
+    else:
+        after = host.body[host.body.index(loop) + 1:] \
+            if loop in host.body else []
+        if not (after and isinstance(after[0], ast.Return)
+                and norm(after[0].value) == "True"):
+            raise AnalysisError(f"{host.name}: does not return True after "
+                                f"the per-dimension loop")
 
     class Brk(ast.NodeTransformer):
         def visit_Break(self, node):
@@ -524,6 +557,14 @@ def array_shape_table(ctx, res):
         def visit_Continue(self, node):
             return ast.copy_location(ast.Return(ast.Constant("ACCEPT")), node)
 
+        def visit_Return(self, node):
+            if host is not fn and node.value is not None \
+                    and norm(node.value) in ("False", "None", "0"):
+                return ast.copy_location(
+                    ast.Return(ast.Constant("REJECT")), node)
+            raise AnalysisError(f"{host.name}: unexpected return inside the "
+                                f"per-dimension loop")
+
         def visit_For(self, node):
             return node
 
@@ -531,7 +572,7 @@ def array_shape_table(ctx, res):
             return node
     body = [Brk().visit(copy.deepcopy(s)) for s in loop.body]
     body.append(ast.Return(ast.Constant("ACCEPT")))
-    w = ast.FunctionDef(name="dim", args=fn.args, body=body,
+    w = ast.FunctionDef(name="dim", args=host.args, body=body,
                         decorator_list=[], lineno=loop.lineno, col_offset=0)
     ast.fix_missing_locations(w)
     g = build_cfg(w, "AbstractArray.validate.dim")
